@@ -40,7 +40,7 @@ LAYOUTS = [
 
 
 def bounds(tier):
-    return {"depth": 3 if tier == "quick" else 5, "warmup": [2] if tier == "quick" else [2, 4]}
+    return {"depth": 4 if tier == "quick" else 5, "warmup": [2, 4]}
 
 
 def targets(tier):
@@ -99,17 +99,24 @@ def make_twin(tg, params):
 def work(tier, seed):
     tgs = targets(tier)
     units = []
-    depth = 3 if tier == "quick" else 5
+    depth = 4 if tier == "quick" else 5
     for li, lay in enumerate(LAYOUTS):
         for ti, ch in enumerate(common.chunks(tgs, 12)):
             if tier == "quick":
                 ch = [tg for j, tg in enumerate(ch) if (j + li + ti + seed) % 3 == 0]
             if ch:
-                units.append({"layout": lay, "targets": ch, "depth": depth, "warmups": [2] if tier == "quick" else [2, 4], "dtypes": ["f64", "f32"]})
+                if tier == "thorough":
+                    units.append({"layout": lay, "targets": ch, "depth": depth, "warmups": [2, 4], "dtypes": ["f64", "f32"]})
+                else:
+                    units.append({"layout": lay, "targets": ch, "depth": 3, "warmups": [2], "dtypes": ["f64"]})
+                    units.append({"layout": lay, "targets": ch[:1], "depth": 3, "warmups": [2], "dtypes": ["f32"]})
+                    longer = [tg for tg in ch if tg.get("momentum", 0) or tg["t"] in ("rmsprop", "adagrad")][:2]
+                    if longer:
+                        units.append({"layout": lay, "targets": longer, "depth": 4, "warmups": [4], "dtypes": ["f64"]})
     return units
 
 
-def check(tg, lay, start, pdtype, hist, seed):
+def check(tg, lay, start, pdtype, hist, seed, zero_at=None):
     """one history: Shampoo-with-grafting vs torch twin (and vs Shampoo-without-grafting after start)."""
     import torch
 
@@ -130,6 +137,8 @@ def check(tg, lay, start, pdtype, hist, seed):
     diverged = False
     for t, mask in enumerate(hist):
         seq.set_grads(params, cfg, t, mask)
+        if zero_at is not None and zero_at[1] == t and params[zero_at[0]].grad is not None:
+            params[zero_at[0]].grad.zero_()  # present but all-zero gradient (e.g. zero_grad(set_to_none=False) on an unused layer)
         for a, b in zip(params, tparams):
             b.grad = None if a.grad is None else a.grad.clone()
         if norm_part:
@@ -147,6 +156,9 @@ def check(tg, lay, start, pdtype, hist, seed):
             return [f"step {t} mask {mask}: raised {type(e).__name__}: {str(e)[:150]}"], digests
         if any(mask):
             gstep += 1
+        for i, a in enumerate(params):
+            if not torch.isfinite(a.detach()).all():
+                msgs.append(f"step {t} mask {mask}: parameter {i} is not finite after the step")
         if gstep < start and not diverged:
             for i, (a, b) in enumerate(zip(params, tparams)):
                 scale = max(b.detach().abs().max().item(), 1e-30)
@@ -193,7 +205,15 @@ def run_unit(unit):
             for pdtype in unit["dtypes"]:
                 for h in itertools.product(masks, repeat=depth):
                     hist = [list(m) for m in h]
+                    # one variant with a present-but-all-zero gradient of the second parameter at the first step >= start
+                    za = (1, start - 1) if (len(hist) >= start and hist[start - 1][1] and all(any(m) for m in hist[: start - 1])) else None
                     msgs, digests = check(tg, lay, start, pdtype, hist, 0)
+                    if za is not None and not msgs:
+                        msgs, _ = check(tg, lay, start, pdtype, hist, 0, zero_at=za)
+                        res["stats"]["zero_gradient_variants"] = res["stats"].get("zero_gradient_variants", 0) + 1
+                        if msgs:
+                            res["violations"].append({"case": {"target": tg, "layout": lay, "start": start, "pdtype": pdtype, "hist": hist, "zero_at": list(za)}, "msg": f"{msgs[0]} [zero gradient of parameter 1 at step {za[1]}; target {tg} layout {lay}]", "kind": "zero" + msgs[0].split(":")[-1][:25]})
+                            msgs = []
                     res["evals"] += 1
                     res["transitions"] += len(digests)
                     res["states"].update(digests)
@@ -217,4 +237,5 @@ def run_unit(unit):
 
 
 def replay(case):
-    return check(case["target"], case["layout"], case["start"], case["pdtype"], case["hist"], 0)[0]
+    za = case.get("zero_at")
+    return check(case["target"], case["layout"], case["start"], case["pdtype"], case["hist"], 0, zero_at=tuple(za) if za else None)[0]
